@@ -13,6 +13,7 @@ import CSD.Lemmas.HashBlocks
 import CSD.Lemmas.HashRP
 import CSD.Lemmas.HashRPF
 import CSD.Lemmas.CodecRoundTrip
+import CSD.Lemmas.FM11
 
 namespace CSD.Props.C01
 open CSD CSD.PFC
@@ -192,5 +193,45 @@ theorem models_match_source_text :
     Generated.body_RePair_compareRP = SourceText.body_RePair_compareRP ∧
     Generated.body_HASHRPF_locate = SourceText.body_HASHRPF_locate ∧
     Generated.body_Hash_insert = SourceText.body_Hash_insert := ⟨rfl, rfl, rfl, rfl, rfl, rfl, rfl, rfl, rfl, rfl, rfl, rfl, rfl, rfl, rfl, rfl, rfl, rfl, rfl, rfl, rfl⟩
+
+
+/-! ### FMINDEX -/
+
+/-- Both round trips for `StringDictionaryFMINDEX`, for every valid `S`, every suffix array of its text
+and every index built from it (`FM.DictOK`; the suffix sorting algorithm is not modelled — any sorted
+permutation of the suffixes will do): the `i`-th member is located at ID `i + 1`, and extracting ID `i + 1`
+walks the BWT backwards from the separator after the member to the separator before it and returns
+exactly its bytes; every read of `occ`, `alphabet` and the BWT is in bounds and the result buffer of
+`maxlength + 2` bytes is not overrun. -/
+theorem fmindex_round_trip {S : List Str} {L : List FM.Row} {d : FM.Dict} (hv : validDict S = true)
+    (hd : FM.DictOK S L d) (hml : ∀ s ∈ S, s.length < d.maxlength) (i : Nat) (hi : i < S.length) :
+    d.locate S[i] = some (i + 1) ∧ d.extract (i + 1) = some (some (FM.symsOf S[i])) := by
+  refine ⟨?_, FM.extract_spec hv hd hml i hi⟩
+  have hall : S[i].all validByte = true := by
+    simp only [validDict, Bool.and_eq_true, List.all_eq_true] at hv
+    have := hv.1.2 S[i] (List.getElem_mem hi)
+    simp only [validStr, Bool.and_eq_true] at this
+    exact this.2
+  have hs : SortedLt S := sortedLt_of_sortedStrict S (by
+    simp only [validDict, Bool.and_eq_true] at hv; exact hv.2)
+  rw [FM.locate_spec hv hd S[i] hall, Spec.locate_getElem hs i hi]
+
+/-- The hypotheses are those of the model's own build, for every `S` and sampling step. -/
+theorem fmindex_hypotheses_hold (S : List Str) (step : Nat) :
+    FM.DictOK S (FM.sortRows (FM.mkText S)) (FM.buildDict S step) ∧
+    ∀ s ∈ S, s.length < (FM.buildDict S step).maxlength :=
+  ⟨FM.dictOK_buildDict S step, FM.maxlength_buildDict S step⟩
+
+/-- The FM-index models were written against the current text of the C++ functions they mirror. -/
+theorem fm_models_match_source_text :
+    Generated.body_SSA_locate_id = SourceText.body_SSA_locate_id ∧
+    Generated.body_SSA_extract_id = SourceText.body_SSA_extract_id ∧
+    Generated.body_SSA_build_index = SourceText.body_SSA_build_index ∧
+    Generated.body_SSA_build_bwt = SourceText.body_SSA_build_bwt ∧
+    Generated.body_FMINDEX_ctor = SourceText.body_FMINDEX_ctor ∧
+    Generated.body_FMINDEX_locate = SourceText.body_FMINDEX_locate ∧
+    Generated.body_FMINDEX_extract = SourceText.body_FMINDEX_extract ∧
+    Generated.body_FMINDEX_build_ssa = SourceText.body_FMINDEX_build_ssa :=
+  ⟨rfl, rfl, rfl, rfl, rfl, rfl, rfl, rfl⟩
 
 end CSD.Props.C01
